@@ -4,7 +4,8 @@ exit 0  every obligation discharged (and every bounded/ground clause held)
 exit 1  VIOLATION: an obligation is refuted (counterexample replayed on the
         real code where the solver gives one)
 exit 2  UNDECIDED: solver unknown / timeout / construct out of reach
-exit 3  engine inconsistency (vacuity guard, canary, CPython cross-check)
+exit 3  engine inconsistency (vacuity guard, canary, CPython cross-check, a harness that lost its anchor) and no violation
+        found by any other obligation (a violation found elsewhere in the same run is reported: exit 1)
 """
 import json
 import multiprocessing as mp
@@ -930,7 +931,9 @@ def run_property(pid, module_names, tier="quick", jobs=None, only=None):
     if crashes:
         for c in crashes:
             print("ENGINE-ERROR %s" % c)
-        return 3
+        if not violations:
+            return 3
+        # a harness that lost its anchor decides nothing, but a violation found by another obligation is still a violation
     if violations:
         for full, rp, confirmed, v in violations:
             print("  refuted obligation: %s  inputs=%s  native=%s%s" % (
